@@ -31,8 +31,9 @@
    - PaysetCommit is modelled as the identity on the flat list of (txid, ApplyData): that the
      Merkle commitment is binding is C37 / hash collision-freeness;
    - per group, the state-independent checks that are literally the same code in both modes are
-     inputs computed by the real code: [g_wf] (every Txn.WellFormed), [g_gid] (group ids
-     consistent and complete), [g_feeok] (CheckGroupFees of SummarizeFees); per transaction
+     inputs computed by the real code: [g_wf] (every Txn.WellFormed), [t_gidok] per member
+     (group id consistent with the first member's and non-zero in a multi-member group; checked
+     inside the loop) and [g_gid] (the group is complete: the hash check after the loop), [g_feeok] (CheckGroupFees of SummarizeFees); per transaction
      [t_genok] (Alive's genesis id / hash checks) and [t_len] (GetEncodedLength of the
      SignedTxnInBlock);
    - the group structure of the payset is explicit (Go: DecodePaysetGroups recovers it from the
@@ -132,7 +133,9 @@ Record txn := mkTxn {
   t_fv : N;        (* FirstValid *)
   t_lv : N;        (* LastValid *)
   t_genok : bool;
-  t_len : N
+  t_len : N;
+  t_gidok : bool   (* the group-id checks made inside TransactionGroup's loop pass for this member:
+                      Group = txgroup[0].Group, and Group is non-zero unless the group is a singleton *)
 }.
 
 Definition stib : Type := (txn * ad)%type.       (* SignedTxnInBlock / SignedTxnWithAD *)
@@ -312,6 +315,9 @@ Fixpoint group_loop (E : env) (L : lview) (parent c : layer) (blockbytes gbytes 
     let '(c1, s') := r1 in
     let gbytes1 := if e_validate E then gbytes + t_len (fst s) else gbytes in
     if e_validate E && (e_cap E <? blockbytes + gbytes1) then Err E_NOSPACE else
+    (* "inconsistent group values" / "had zero Group but was submitted in a group": per member,
+       after the space check and before the next member is evaluated *)
+    if negb (t_gidok (fst s)) then Err E_GID else
     do r2 <- group_loop E L parent c1 blockbytes gbytes1 r ;
     let '(c2, ss, gb) := r2 in
     Ok (c2, s' :: ss, gb)
